@@ -6,6 +6,9 @@
      [xt_nodes_sound]  every node of y is a node of x at or above a member of T; a leaf of y is
                        the same leaf of x, and a leaf of x that y has is the same in y;
      [xt_nodes_keep]   every leaf of x at or above a member of T is a leaf of y.
+   Without [lsel] (after the F27 repair of the walker):
+     [xt_selected_leafy]  a node of x designated by a member of T with no member of T beneath
+                       it is a leaf of x (a granular one would be extracted as null).
    (Proofs/PartExtract.v proves the same for a plain x, and derives the validity of y
    from the key fields being selected; here the validity of y is a hypothesis.) *)
 From Coq Require Import List ZArith String Bool Arith Lia.
@@ -22,6 +25,17 @@ From SMD Require Proofs.MergeBase Proofs.MergeWalk.
 Import ListNotations.
 Open Scope bool_scope.
 Open Scope list_scope.
+
+(* a well-formed set without members is the empty set (as Partition.ps_empty_eq) *)
+Lemma ps_empty_is_empty_set : forall S, ps_ok S = true -> ps_empty S = true -> S = ps_empty_set.
+Proof.
+  intros [m c] Hok Hem. unfold ps_ok in Hok. apply andb_true_iff in Hok. destruct Hok as [Hwf _].
+  simpl in Hem. destruct m as [|x m]; [|discriminate].
+  destruct c as [|[e sub] c]; [reflexivity|]. exfalso.
+  simpl in Hem. apply andb_true_iff in Hem. destruct Hem as [Hsub _].
+  simpl in Hwf. rewrite !andb_true_iff in Hwf. destruct Hwf as [_ [[_ Hne] _]].
+  rewrite Hsub in Hne. discriminate.
+Qed.
 
 Local Arguments ps_has : simpl never.
 Local Arguments ps_with_prefix : simpl never.
@@ -120,10 +134,11 @@ Section Nodes.
     okx ft c /\
     match oc' with
     | Some c' => oky ft c' /\
-        exists Tc, c' = remove_items s true ft Tc c /\
-          (ps_has [e] T = true \/
-           (ps_has [e] T = false /\ ps_ok Tc = true /\ ps_empty Tc = false /\
-            forall q, wf_path q = true -> q <> [] -> ps_has q Tc = ps_has (e :: q) T))
+        (* the walker descends with the selection beneath e, whether or not e itself is
+           selected (typed/remove.go as repaired, F27) *)
+        exists Tc, c' = remove_items s true ft Tc c /\ ps_ok Tc = true /\
+          (forall q, wf_path q = true -> q <> [] -> ps_has q Tc = ps_has (e :: q) T) /\
+          (ps_has [e] T = true \/ (ps_has [e] T = false /\ ps_empty Tc = false))
     | None => ps_has [e] T = false /\ ps_empty (ps_with_prefix e T) = true
     end.
 
@@ -161,11 +176,13 @@ Section Nodes.
         split.
         * split; [apply (plain_map_in my k c' Hpl Hiny)|].
           rewrite conforms_eq, Hr in Hcy. eapply cmap_each_in; eauto.
-        * unfold xt_value in Ev. destruct (ps_has [PEField k] T) eqn:Eh.
-          -- inversion Ev. eexists. split; [reflexivity|]. left. reflexivity.
+        * destruct (ps_with_prefix_spec (PEField k) T HT eq_refl) as [H1 H2].
+          unfold xt_value in Ev. destruct (ps_has [PEField k] T) eqn:Eh.
+          -- inversion Ev. eexists. split; [reflexivity|]. split; [exact H1|]. split; [exact H2|].
+             left. reflexivity.
           -- destruct (ps_empty (ps_with_prefix (PEField k) T)) eqn:Ee; [discriminate|]. cbn [negb] in Ev.
-             inversion Ev. eexists. split; [reflexivity|]. right.
-             destruct (ps_with_prefix_spec (PEField k) T HT eq_refl) as [H1 H2]. auto.
+             inversion Ev. eexists. split; [reflexivity|]. split; [exact H1|]. split; [exact H2|].
+             right. auto.
       + unfold xt_value in Ev. destruct (ps_has [PEField k] T); [discriminate|].
         destruct (ps_empty (ps_with_prefix (PEField k) T)); [auto|discriminate].
   Qed.
@@ -232,17 +249,22 @@ Section Nodes.
         rewrite forallb_forall in HallY. apply HallY. exact Hin. }
       unfold xt_item in Hiny. rewrite (list_item_pe_or_zero_some s t c ec Ec) in Hiny. cbv zeta in Hiny.
       rewrite Hhas, Hemp in Hiny.
-      destruct (ps_has [e] T) eqn:Eh; destruct (ps_empty (ps_with_prefix e T)) eqn:Ee; cbn [andb negb] in *.
-      + split; [apply Hoky; apply Hiny; reflexivity|]. eexists. split; [reflexivity|]. left. reflexivity.
-      + split; [apply Hoky; apply Hiny; reflexivity|]. eexists. split; [reflexivity|]. left. reflexivity.
-      + auto.
-      + split; [apply Hoky; apply Hiny; reflexivity|]. eexists. split; [reflexivity|]. right.
-        (* the subset is taken at the member's own element *)
-        destruct (ps_with_prefix_spec ec T HT Hwec) as [H1 H2].
-        split; [reflexivity|]. split; [exact H1|]. split; [rewrite Hemp; reflexivity|].
-        intros q Hq Hqne. rewrite (H2 q Hq Hqne).
+      (* the subset is taken at the member's own element *)
+      destruct (ps_with_prefix_spec ec T HT Hwec) as [H1 H2].
+      assert (H2' : forall q, wf_path q = true -> q <> [] ->
+                ps_has q (ps_with_prefix ec T) = ps_has (e :: q) T).
+      { intros q Hq Hqne. rewrite (H2 q Hq Hqne).
         apply ps_has_patheqb; auto; try (apply wf_path_cons; auto).
-        simpl. rewrite Hm. apply patheqb_refl. exact Hq.
+        simpl. rewrite Hm. apply patheqb_refl. exact Hq. }
+      destruct (ps_has [e] T) eqn:Eh; destruct (ps_empty (ps_with_prefix e T)) eqn:Ee; cbn [andb negb] in *.
+      + split; [apply Hoky; apply Hiny; reflexivity|]. eexists. split; [reflexivity|].
+        split; [exact H1|]. split; [exact H2'|]. left. reflexivity.
+      + split; [apply Hoky; apply Hiny; reflexivity|]. eexists. split; [reflexivity|].
+        split; [exact H1|]. split; [exact H2'|]. left. reflexivity.
+      + auto.
+      + split; [apply Hoky; apply Hiny; reflexivity|]. eexists. split; [reflexivity|].
+        split; [exact H1|]. split; [exact H2'|]. right.
+        split; [reflexivity|]. rewrite Hemp. reflexivity.
   Qed.
 
   (* ---------- the shape of the extraction ---------- *)
@@ -380,13 +402,13 @@ Section Nodes.
     { right. eauto. }
     rewrite Hsy in Hres. rewrite Hsx.
     destruct oc' as [c'|]; [|discriminate].
-    destruct Hrel as (Hyc & Tc & Ec' & Hcase).
+    destruct Hrel as (Hyc & Tc & Ec' & HTc & Hw & Hcase).
     pose proof Hxc as (Hft & Hwc & Hcc & Hdfc). pose proof Hyc as (Hplc & Hcyc).
     assert (Hleafcase : leafy s ft c -> c' = c).
     { intros Hl. rewrite Ec' in Hplc |- *. apply (xt_leaf_plain ft Tc c Hcc Hl Hplc). }
     assert (Hgran : granular s ft c -> granular s ft c').
     { intros Hg. rewrite Ec' in Hplc |- *. apply (xt_granular s ft Tc c Hg Hplc). }
-    destruct Hcase as [Hh|(Hh & HTc & Hemp & Hw)].
+    destruct Hcase as [Hh|(Hh & Hemp)].
     - (* the child is selected: it is a leaf, extracted whole *)
       assert (Hl : leafy s ft c).
       { apply rnode_leaf_leafy. apply (proj2 Hsel [e] (RNode ft c)); auto.
@@ -433,11 +455,11 @@ Section Nodes.
         assert (Hx2 : ext rest (ps_with_prefix e T) = true).
         { destruct rest; cbn [orb] in Hext; exact Hext. }
         rewrite (ext_nonempty rest _ HT' Hrest Hx2) in Hemp. discriminate. }
-    destruct Hrel as (Hyc & Tc & Ec' & Hcase).
+    destruct Hrel as (Hyc & Tc & Ec' & HTc & Hw & Hcase).
     pose proof Hxc as (Hft & Hwc & Hcc & Hdfc). pose proof Hyc as (Hplc & Hcyc).
     assert (Hleafcase : leafy s ft c -> c' = c).
     { intros Hl. rewrite Ec' in Hplc |- *. apply (xt_leaf_plain ft Tc c Hcc Hl Hplc). }
-    destruct Hcase as [Hh|(Hh & HTc & Hemp & Hw)].
+    destruct Hcase as [Hh|(Hh & Hemp)].
     - assert (Hl : leafy s ft c).
       { apply rnode_leaf_leafy. apply (proj2 Hsel [e] (RNode ft c)); auto.
         - apply wf_path_cons. auto.
@@ -451,5 +473,68 @@ Section Nodes.
         apply (IH c ft Tc n Hxc Hselc Hyc Hrest ltac:(discriminate) Hres Hleaf).
         change (ext (e :: e2 :: rest2) T) with (false || ext (e2 :: rest2) (ps_with_prefix e T)) in Hext.
         rewrite (ext_child_ext T e Tc (e2 :: rest2) HT He HTc Hw Hrest). exact Hext.
+  Qed.
+
+  (* ---------- a selected node with nothing selected beneath it ---------- *)
+  (* After the F27 repair the walker descends into a selected entry or member with the
+     selection beneath it.  A granular node that is selected with nothing selected beneath it
+     is therefore extracted as null: when the extraction is plain, such a node is a leaf. *)
+  Lemma rm_list_go_none : forall t l, rm_list_go s true ps_empty_set t l = [].
+  Proof.
+    intros t l. induction l as [|x l IH]; [reflexivity|]. rewrite rm_list_go_cons, IH. reflexivity.
+  Qed.
+
+  Lemma rm_map_go_none : forall t m, rm_map_go s true ps_empty_set t m = [].
+  Proof.
+    intros t m. induction m as [|kv m IH]; [reflexivity|]. rewrite rm_map_go_cons, IH. reflexivity.
+  Qed.
+
+  Lemma xt_nothing_null : forall tr T c, ps_ok T = true -> ps_empty T = true -> granular s tr c ->
+    remove_items s true tr T c = VNull.
+  Proof.
+    intros tr T c HT Hem Hg. rewrite (ps_empty_is_empty_set T HT Hem). unfold granular in Hg.
+    destruct (kind_of s tr c) as [|t m|t l|] eqn:Ek; try contradiction.
+    - destruct (kind_map_inv _ _ _ _ _ Ek) as (a & Hr & Ham & Hv & Hna & Hne). subst c.
+      destruct a as [sc li ma]. simpl in Ham. subst ma.
+      rewrite (remove_items_vmap' s true tr _ sc li t m Hr Hne), Hna, rm_map_go_none. reflexivity.
+    - destruct (kind_list_inv _ _ _ _ _ Ek) as (a & Hr & Hal & Hv & Hna & Hne). subst c.
+      destruct a as [sc li ma]. simpl in Hal. subst li.
+      rewrite (remove_items_vlist' s true tr _ sc t ma l Hr Hne), Hna, rm_list_go_none. reflexivity.
+  Qed.
+
+  Theorem xt_selected_leafy : forall p x tr T ft c, okx tr x -> ps_ok T = true ->
+    oky tr (remove_items s true tr T x) -> wf_path p = true -> p <> [] ->
+    ps_has p T = true ->
+    (forall q, wf_path q = true -> q <> [] -> ps_has (p ++ q) T = false) ->
+    resolve_path s tr x p = Some (RNode ft c) -> leafy s ft c.
+  Proof.
+    induction p as [|e rest IH]; intros x tr T ft c Hx HT Hy Hp Hne Hh Hno Hres; [congruence|].
+    apply wf_path_cons in Hp. destruct Hp as [He Hrest].
+    destruct (child_of tr x T e Hx HT Hy He) as (ft0 & c0 & oc' & Hsx & Hsy & Hxc & Hrel).
+    { left. eauto. }
+    rewrite Hsx in Hres.
+    destruct (ps_with_prefix_spec e T HT He) as [HT' Hw'].
+    destruct oc' as [c'|].
+    2:{ exfalso. destruct Hrel as [Hh0 Hemp]. destruct rest as [|e2 rest2]; [congruence|].
+        rewrite <- Hw' in Hh by (auto; discriminate).
+        rewrite (ps_has_nonempty _ _ Hh) in Hemp. discriminate. }
+    destruct Hrel as (Hyc & Tc & Ec' & HTc & Hw & _).
+    destruct rest as [|e2 rest2].
+    - simpl in Hres. inversion Hres; subst ft0 c0.
+      destruct (leafy_or_granular s ft c) as [Hl|Hg]; [exact Hl|]. exfalso.
+      assert (Hemp : ps_empty Tc = true).
+      { destruct (ps_empty Tc) eqn:E; [reflexivity|].
+        destruct (ps_nonempty_witness Tc HTc E) as (q & Hq & Hhq).
+        pose proof (has_nonnil _ _ Hhq) as Hqne. rewrite (Hw q Hq Hqne) in Hhq.
+        pose proof (Hno q Hq Hqne) as Hf. cbn [app] in Hf. congruence. }
+      destruct Hyc as [Hplc _]. rewrite Ec', (xt_nothing_null ft Tc c HTc Hemp Hg) in Hplc.
+      discriminate.
+    - rewrite Ec' in Hyc.
+      apply (IH c0 ft0 Tc ft c Hxc HTc Hyc Hrest ltac:(discriminate)); [| |exact Hres].
+      + rewrite (Hw _ Hrest ltac:(discriminate)). exact Hh.
+      + intros q Hq Hqne. rewrite Hw.
+        * apply (Hno q Hq Hqne).
+        * apply wf_path_app. auto.
+        * discriminate.
   Qed.
 End Nodes.
